@@ -20,7 +20,7 @@
 (* The properties are stated over the interleaved history h of inputs and  *)
 (* outputs only (C05, C06, C17), from the text of properties.jsonl.        *)
 (***************************************************************************)
-EXTENDS Naturals, Integers, Sequences, FiniteSets, TLC, Elem, Json, StartProps
+EXTENDS Naturals, Integers, Sequences, FiniteSets, TLC, Elem, Json, StartProps, StartCore
 
 CONSTANTS N,        \* number of upstream replicas
           ITERS,    \* iterations every replica goes through
@@ -55,17 +55,10 @@ ovars == <<mon>>
 vars == <<svars, tvars, h, ovars>>
 
 ---------------------------------------------------------------------------
-(* WatermarkFrontier *)
-Frontier(w) == IF \E p \in Senders : w[p] = NONE THEN NONE
-               ELSE CHOOSE m \in {w[p] : p \in Senders} : \A q \in Senders : m <= w[q]
-
-(* WatermarkFrontier::update(coord, ts) as coded: [w, f, emit] *)
-Update(w, f, p, t) ==
-  IF w[p] # NONE /\ w[p] >= t THEN [w |-> w, f |-> f, emit |-> NONE]
-  ELSE LET w2 == [w EXCEPT ![p] = t]
-           f2 == Frontier(w2)
-       IN [w |-> w2, f |-> f2,
-           emit |-> IF f2 # NONE /\ f2 # f THEN f2 ELSE NONE]
+(* WatermarkFrontier: the functions of comp/StartCore.tla (the same ones trace/StartConform.tla replays *)
+(* real replicas through); NONE = StartCore!NOTS                                                       *)
+Frontier(w) == FrontierOf(w)
+Update(w, f, p, t) == UpdateW(w, f, p, t)
 
 ---------------------------------------------------------------------------
 (***************************************************************************)
